@@ -137,11 +137,16 @@ fn run_batch(cx: &mut Cx, cases: &[Case], dirs: &DirectiveList)
 		}
 		// the model's build of the denoted statement gives the same instruction (what `show_assembles` proves)
 		let want = format!("completed | {}", ser_instr(&c.instr));
-		let got = if parts.len() >= 3 {format!("{} | {}", parts[1], parts[2])} else {parts.get(1).copied().unwrap_or("?").to_owned()};
+		let got = match parts.get(1).copied()
+		{
+			Some("completed") => format!("completed | {}", parts.get(2).copied().unwrap_or("?")),
+			Some(other) => other.to_owned(),   // `error <text>`, `deferred …`, `notfound …`, `panic`
+			None => "?".to_owned(),
+		};
 		let imp = match (&canon, real.errs.is_empty() && real.other.is_empty() && real.panic.is_none())
 		{
 			(Ok(enc), true) if real.out == vec![(c.addr, enc.clone())] => want.clone(),
-			_ => format!("not assembled: {}", real.canon()),
+			_ => match real.errs.first() {Some(e) => format!("error {e}"), None => format!("not assembled: {}", real.canon())},
 		};
 		cx.report.compare("model.front.build(show.parts)", &input, &got, &imp);
 		cx.report.case(Some(&format!("{th}{}", c.addr)));
